@@ -159,3 +159,14 @@ package util
 //@   invariant forall(k, 0, len(runes), 0 <= runes[k] && runes[k] <= 1114111)
 //@   invariant len(runes) + rcnt(bytes, i) == rcnt(bytes, 0)
 //@   decreases len(bytes) - i
+
+//@ func Chars.TrimTrailingWhitespaces
+//@ requires chars != nil && validChars(chars)
+//@ modifies chars.slice
+//@ ensures len(chars.slice) <= old(len(chars.slice)) && chars.inBytes == old(chars.inBytes)
+// Prepend re-interprets a rune slice as bytes (unsafe): trusted
+//@ func Chars.Prepend trusted
+//@ requires chars != nil
+//@ modifies chars.slice
+// the event box is a mutex-protected map shared between goroutines: outside the contracts
+//@ func EventBox.Set trusted
